@@ -12,3 +12,4 @@ open Just.Props.C04
 #print axioms override_irrelevant
 #print axioms override_skips_expression
 #print axioms own_assignment_first
+#print axioms each_assignment_once
